@@ -48,7 +48,7 @@ def plan(tier, seed):
     for i, k in enumerate(kinds):
         c = {'idx': i, 'kind': k}
         if k == 'net':
-            c['flavour'] = ['mesh', 'openroadm', 'mesh_pd', 'mesh', 'multiband_gen'][i % 5]
+            c['flavour'] = ['mesh', 'openroadm', 'mesh_pd', 'mesh', 'multiband_gen', 'p2p'][i % 6]
         cases.append(c)
     return cases
 
